@@ -1,12 +1,896 @@
-(* C10 — proofs (being filled in). *)
+(* C10 — proofs about the model of default values and instance isolation. *)
 From Coq Require Import ZArith List Bool Lia.
 From TV Require Import Common.Harness C10.Model C10.Law C10.Corr.
 Import ListNotations.
 Open Scope Z_scope.
 
-Lemma class_table_const w o : w_classes (fst (step w o)) = w_classes w.
+(* ------------------------------------------------------------------ *)
+(* lists                                                                *)
+
+Lemma chk_nil k b : chk k b = [] <-> b = true.
+Proof. destruct b; cbn; split; intros; congruence. Qed.
+
+Lemma zlist_eqb_refl l : zlist_eqb l l = true.
+Proof. induction l as [|x l IH]; [reflexivity|]. cbn. rewrite Z.eqb_refl. exact IH. Qed.
+
+Lemma zlist_eqb_eq a : forall b, zlist_eqb a b = true -> a = b.
+Proof.
+  induction a as [|x a IH]; intros [|y b] H; cbn in H; try discriminate; [reflexivity|].
+  apply andb_true_iff in H. destruct H as [H1 H2]. apply Z.eqb_eq in H1. subst. f_equal. apply IH. exact H2.
+Qed.
+
+Lemma update_nth_length {A} (f : A -> A) l : forall n, length (update_nth n f l) = length l.
+Proof. induction l as [|a l IH]; intros [|n]; cbn; try reflexivity. rewrite IH. reflexivity. Qed.
+
+Lemma nth_error_update_nth_other {A} (f : A -> A) l : forall n j, n <> j ->
+  nth_error (update_nth n f l) j = nth_error l j.
+Proof.
+  induction l as [|a l IH]; intros [|n] [|j] H; cbn; try reflexivity; try congruence.
+  apply IH. congruence.
+Qed.
+
+Lemma nth_update_nth_same {A} (f : A -> A) (d : A) l : forall n, (n < length l)%nat ->
+  nth n (update_nth n f l) d = f (nth n l d).
+Proof.
+  induction l as [|a l IH]; intros [|n] H; cbn in *; try lia; try reflexivity. apply IH. lia.
+Qed.
+
+Lemma update_nth_id {A} (d : A) l : forall n, (n < length l)%nat ->
+  update_nth n (fun _ => nth n l d) l = l.
+Proof.
+  induction l as [|a l IH]; intros [|n] H; cbn in *; try lia; try reflexivity. rewrite IH by lia. reflexivity.
+Qed.
+
+Lemma update_nth_twice {A} (f g : A -> A) l : forall n,
+  update_nth n f (update_nth n g l) = update_nth n (fun x => f (g x)) l.
+Proof. induction l as [|a l IH]; intros [|n]; cbn; try reflexivity. rewrite IH. reflexivity. Qed.
+
+Lemma update_nth_ext {A} (f g : A -> A) l : forall n, (forall x, f x = g x) -> update_nth n f l = update_nth n g l.
+Proof. induction l as [|a l IH]; intros [|n] H; cbn; try reflexivity; [rewrite H | rewrite (IH n H)]; reflexivity. Qed.
+
+Lemma alookup_app {A} k (a b : list (Z * A)) :
+  alookup k (a ++ b) = match alookup k a with Some x => Some x | None => alookup k b end.
+Proof. induction a as [|[k' x] a IH]; [reflexivity|]. cbn. destruct (k =? k'); [reflexivity | exact IH]. Qed.
+
+Lemma alookup_aset {A} k k' (x : A) l : alookup k (aset k' x l) = if k =? k' then Some x else alookup k l.
+Proof.
+  induction l as [|[k2 y] l IH]; cbn.
+  - destruct (k =? k'); reflexivity.
+  - destruct (Z.eqb_spec k' k2) as [->|Hne]; cbn.
+    + destruct (k =? k2); reflexivity.
+    + destruct (Z.eqb_spec k k2) as [->|Hne2].
+      * destruct (Z.eqb_spec k2 k'); [congruence | reflexivity].
+      * exact IH.
+Qed.
+
+(* ------------------------------------------------------------------ *)
+(* the class tables are never written                                   *)
+
+Lemma step_classes w o : w_classes (fst (step w o)) = w_classes w.
 Proof.
   destruct o; cbn [step]; try reflexivity;
     match goal with |- context [if ?c then _ else _] => destruct c end; try reflexivity;
     match goal with |- context [step_inst ?w ?i ?o] => destruct (step_inst w i o) as [[? ?] ?] end; reflexivity.
+Qed.
+
+Lemma final_classes ops : forall w, w_classes (final w ops) = w_classes w.
+Proof.
+  induction ops as [|o ops IH]; intros w; [reflexivity|]. cbn [final fold_left].
+  change (fold_left (fun w o => fst (step w o)) ops ?x) with (final x ops). rewrite IH. apply step_classes.
+Qed.
+
+(* ------------------------------------------------------------------ *)
+(* non-interference: only the target's slot is rewritten                *)
+
+Definition op_index (o : op) : option Z :=
+  match o with
+  | Read i _ | Assign i _ _ _ | Mutate i _ _ | Register i _ _ _ | AddTrait i _ _ => Some i
+  | NewInst _ => None
+  end.
+
+Definition valid_index (w : world) (i : Z) : Prop := 0 <= i < Z.of_nat (length (w_insts w)).
+Definition inst_at (w : world) (i : Z) : inst := nth (Z.to_nat i) (w_insts w) (new_inst 0).
+
+(* the three shapes of a step *)
+Lemma step_shape w o :
+  (exists c, o = NewInst c) \/
+  (step w o = (w, error_value) /\ ~ valid_index w (target w o)) \/
+  (exists ins' r nx,
+      valid_index w (target w o) /\ op_index o = Some (target w o) /\
+      step_inst w (inst_at w (target w o)) o = (ins', r, nx) /\
+      step w o = (mkW (w_classes w) (update_nth (Z.to_nat (target w o)) (fun _ => ins') (w_insts w)) nx, r)).
+Proof.
+  destruct o as [i n|i n content scalar|i n x|i n hid via|i n t|c]; [| | | | |left; eexists; reflexivity]; right;
+    cbn [step target op_index];
+    (destruct ((i <? 0) || (Z.of_nat (length (w_insts w)) <=? i)) eqn:Ec;
+     [left; split; [reflexivity|]; unfold valid_index; intros [H1 H2];
+      apply orb_true_iff in Ec; destruct Ec as [E|E]; [apply Z.ltb_lt in E | apply Z.leb_le in E]; lia
+     |right; unfold inst_at;
+      match goal with |- context [step_inst w ?a ?o] => destruct (step_inst w a o) as [[ins' r] nx] eqn:Es end;
+      exists ins', r, nx; apply orb_false_iff in Ec; destruct Ec as [E1 E2];
+      apply Z.ltb_ge in E1; apply Z.leb_gt in E2; unfold valid_index; repeat split; try lia; reflexivity]).
+Qed.
+
+Lemma step_insts_length w o : (length (w_insts w) <= length (w_insts (fst (step w o))))%nat.
+Proof.
+  destruct (step_shape w o) as [[c ->]|[[-> _]|(ins' & r & nx & _ & _ & _ & ->)]]; cbn [step fst w_insts].
+  - rewrite app_length. cbn. lia.
+  - lia.
+  - rewrite update_nth_length. lia.
+Qed.
+
+Lemma step_other_instance w o j :
+  (j < length (w_insts w))%nat -> op_index o <> Some (Z.of_nat j) ->
+  nth_error (w_insts (fst (step w o))) j = nth_error (w_insts w) j.
+Proof.
+  intros Hj Hne.
+  destruct (step_shape w o) as [[c ->]|[[-> _]|(ins' & r & nx & Hv & Hi & _ & ->)]]; cbn [step fst w_insts].
+  - apply nth_error_app1. exact Hj.
+  - reflexivity.
+  - apply nth_error_update_nth_other. intros E. apply Hne. rewrite Hi. f_equal. rewrite <- E.
+    rewrite Z2Nat.id; [reflexivity | destruct Hv; lia].
+Qed.
+
+Lemma final_other_instance ops : forall w j,
+  (j < length (w_insts w))%nat -> Forall (fun o => op_index o <> Some (Z.of_nat j)) ops ->
+  nth_error (w_insts (final w ops)) j = nth_error (w_insts w) j.
+Proof.
+  induction ops as [|o ops IH]; intros w j Hj Hall; [reflexivity|]. cbn [final fold_left].
+  change (fold_left (fun w o => fst (step w o)) ops ?x) with (final x ops).
+  inversion Hall as [|? ? Ho Hr]; subst. rewrite IH.
+  - apply step_other_instance; assumption.
+  - pose proof (step_insts_length w o). lia.
+  - exact Hr.
+Qed.
+
+(* an instance created after any history starts with the empty view, whatever happened before *)
+Lemma new_instance_is_empty w c :
+  nth_error (w_insts (fst (step w (NewInst c)))) (length (w_insts w)) = Some (new_inst c)
+  /\ w_next (fst (step w (NewInst c))) = w_next w.
+Proof.
+  cbn [step fst w_insts w_next]. split; [|reflexivity].
+  rewrite nth_error_app2 by lia. rewrite Nat.sub_diag. reflexivity.
+Qed.
+
+(* ------------------------------------------------------------------ *)
+(* reads                                                                *)
+
+Lemma range_check w i : valid_index w i -> (i <? 0) || (Z.of_nat (length (w_insts w)) <=? i) = false.
+Proof. intros [H1 H2]. apply orb_false_iff. split; [apply Z.ltb_ge | apply Z.leb_gt]; lia. Qed.
+
+Lemma notify_uninitialized hs n new : notify hs n None new = [].
+Proof. reflexivity. Qed.
+
+(* first read of an unassigned trait: the declared default, freshly allocated, stored, silent *)
+Lemma first_read w i n t :
+  valid_index w i -> alookup n (i_dict (inst_at w i)) = None -> resolve w (inst_at w i) n = Some t ->
+  let ins := inst_at w i in
+  let v := fst (default_value t (w_next w)) in
+  step w (Read i n)
+  = (mkW (w_classes w)
+         (update_nth (Z.to_nat i)
+            (fun _ => mkI (i_cls ins) (i_dict ins ++ [(n, v)]) (i_itraits ins)
+                          (if counted t then bump n (i_calls ins) else i_calls ins) (i_log ins) (i_regs ins))
+            (w_insts w))
+         (snd (default_value t (w_next w))),
+     v).
+Proof.
+  intros Hv Hd Hr. cbn zeta. cbn [step target]. rewrite (range_check w i Hv).
+  unfold inst_at in *. cbn [step_inst]. rewrite Hd, Hr. unfold materialise.
+  destruct (default_value t (w_next w)) as [v next'] eqn:Ed. cbn [fst snd].
+  rewrite notify_uninitialized, app_nil_r. reflexivity.
+Qed.
+
+(* a read of a stored value returns that object and changes nothing at all *)
+Lemma stored_read w i n v :
+  valid_index w i -> alookup n (i_dict (inst_at w i)) = Some v -> step w (Read i n) = (w, v).
+Proof.
+  intros Hv Hd. cbn [step target]. rewrite (range_check w i Hv). unfold inst_at in *. cbn [step_inst].
+  rewrite Hd. f_equal. destruct w as [cs insts nx]. cbn [w_classes w_insts w_next] in *. f_equal.
+  apply update_nth_id. destruct Hv as [H1 H2]. cbn in H2. lia.
+Qed.
+
+Lemma later_reads_same w i n t :
+  valid_index w i -> alookup n (i_dict (inst_at w i)) = None -> resolve w (inst_at w i) n = Some t ->
+  let w1 := fst (step w (Read i n)) in
+  let v := snd (step w (Read i n)) in
+  step w1 (Read i n) = (w1, v).
+Proof.
+  intros Hv Hd Hr. cbn zeta. rewrite (first_read w i n t Hv Hd Hr). cbn [fst snd].
+  apply stored_read.
+  - unfold valid_index in *. cbn [w_insts]. rewrite update_nth_length. exact Hv.
+  - unfold inst_at in *. cbn [w_insts]. rewrite nth_update_nth_same by (destruct Hv; lia).
+    cbn [i_dict]. rewrite alookup_app, Hd. cbn. rewrite Z.eqb_refl. reflexivity.
+Qed.
+
+(* ------------------------------------------------------------------ *)
+(* default methods / factories run at most once per (instance, attribute) *)
+
+Lemma alookup_bump_same n l : alookup n l = None -> alookup n (bump n l) = Some 1.
+Proof.
+  induction l as [|[k c] l IH]; cbn; intros H; [rewrite Z.eqb_refl; reflexivity|].
+  destruct (Z.eqb_spec n k) as [->|Hne]; [discriminate|]. cbn.
+  destruct (n <? k); cbn.
+  - rewrite Z.eqb_refl. reflexivity.
+  - destruct (Z.eqb_spec n k); [contradiction | exact (IH H)].
+Qed.
+
+Lemma alookup_bump_other n m l : m <> n -> alookup m (bump n l) = alookup m l.
+Proof.
+  intros Hne. induction l as [|[k c] l IH]; cbn.
+  - destruct (Z.eqb_spec m n); [contradiction | reflexivity].
+  - destruct (Z.eqb_spec n k) as [->|Hnk]; cbn.
+    + destruct (Z.eqb_spec m k); [contradiction | reflexivity].
+    + destruct (n <? k); cbn.
+      * destruct (Z.eqb_spec m n); [contradiction | reflexivity].
+      * destruct (m =? k); [reflexivity | exact IH].
+Qed.
+
+(* every counter is 1 and belongs to a materialised attribute *)
+Definition calls_ok (ins : inst) : Prop :=
+  Forall (fun p => snd p = 1 /\ alookup (fst p) (i_dict ins) <> None) (i_calls ins).
+
+Lemma bump_forall (P : Z * Z -> Prop) n l :
+  (forall p, In p l -> fst p <> n) -> Forall P l -> P (n, 1) -> Forall P (bump n l).
+Proof.
+  intros Hk Hl Hn. induction l as [|[k c] l IH]; cbn.
+  - constructor; [exact Hn | constructor].
+  - inversion Hl as [|? ? H1 H2]; subst.
+    destruct (Z.eqb_spec n k) as [->|Hne]; [exfalso; apply (Hk (k, c)); [left; reflexivity | reflexivity]|].
+    destruct (n <? k).
+    + constructor; [exact Hn | exact Hl].
+    + constructor; [exact H1|]. apply IH; [|exact H2]. intros p Hp. apply Hk. right. exact Hp.
+Qed.
+
+Lemma calls_ok_bump ins n (d' : list (Z * value)) :
+  calls_ok ins -> alookup n (i_dict ins) = None ->
+  (forall m, alookup m (i_dict ins) <> None -> alookup m d' <> None) -> alookup n d' <> None ->
+  Forall (fun p => snd p = 1 /\ alookup (fst p) d' <> None) (bump n (i_calls ins)).
+Proof.
+  intros Hok Hd Hmono Hn. unfold calls_ok in Hok. apply bump_forall.
+  - intros p Hp E. rewrite Forall_forall in Hok. destruct (Hok p Hp) as [_ Hin]. rewrite E in Hin. contradiction.
+  - eapply Forall_impl; [|exact Hok]. intros p [H1 H2]. split; [exact H1 | apply Hmono, H2].
+  - split; [reflexivity | exact Hn].
+Qed.
+
+Lemma aset_mono {A} n (x : A) d m : alookup m d <> None -> alookup m (aset n x d) <> None.
+Proof. intros H. rewrite alookup_aset. destruct (m =? n); [discriminate | exact H]. Qed.
+Lemma aset_in {A} n (x : A) d : alookup n (aset n x d) <> None.
+Proof. rewrite alookup_aset, Z.eqb_refl. discriminate. Qed.
+Lemma app_mono {A} n (x : A) d m : alookup m d <> None -> alookup m (d ++ [(n, x)]) <> None.
+Proof. intros H. rewrite alookup_app. destruct (alookup m d); [discriminate | contradiction]. Qed.
+Lemma app_in {A} n (x : A) d : alookup n (d ++ [(n, x)]) <> None.
+Proof. rewrite alookup_app. destruct (alookup n d); [discriminate|]. cbn. rewrite Z.eqb_refl. discriminate. Qed.
+
+Lemma calls_ok_mono ins (d' : list (Z * value)) its lg rg :
+  calls_ok ins -> (forall m, alookup m (i_dict ins) <> None -> alookup m d' <> None) ->
+  calls_ok (mkI (i_cls ins) d' its (i_calls ins) lg rg).
+Proof.
+  intros Hok Hm. unfold calls_ok in *. cbn [i_calls i_dict]. eapply Forall_impl; [|exact Hok].
+  intros p [H1 H2]. split; [exact H1 | apply Hm, H2].
+Qed.
+
+Lemma materialise_calls_ok w ins n t :
+  calls_ok ins -> alookup n (i_dict ins) = None ->
+  calls_ok (fst (fst (materialise w ins n t)))
+  /\ (forall m, alookup m (i_dict ins) <> None -> alookup m (i_dict (fst (fst (materialise w ins n t)))) <> None)
+  /\ alookup n (i_dict (fst (fst (materialise w ins n t)))) <> None.
+Proof.
+  intros Hok Hd. unfold materialise. destruct (default_value t (w_next w)) as [v nx]. cbn [fst i_dict].
+  split; [|split].
+  - destruct (counted t).
+    + unfold calls_ok. cbn [i_calls i_dict].
+      apply (calls_ok_bump ins n); try assumption; [intros m0; apply app_mono | apply app_in].
+    + apply calls_ok_mono; [exact Hok | intros m0; apply app_mono].
+  - intros m0. apply app_mono.
+  - apply app_in.
+Qed.
+
+Lemma step_inst_calls_ok w ins o : calls_ok ins -> calls_ok (fst (fst (step_inst w ins o))).
+Proof.
+  intros Hok. destruct o as [i n|i n content scalar|i n x|i n hid via|i n t|c]; cbn [step_inst].
+  - (* Read *)
+    destruct (alookup n (i_dict ins)) eqn:Ed; [exact Hok|].
+    destruct (resolve w ins n) as [t|]; [|exact Hok]. apply materialise_calls_ok; assumption.
+  - (* Assign *)
+    destruct (resolve w ins n) as [t|]; [|exact Hok].
+    destruct (assigned_value t content scalar (w_next w)) as [v nx].
+    destruct (hids ins t n) as [|h hs].
+    + cbn [fst]. apply calls_ok_mono; [exact Hok | intros m; apply aset_mono].
+    + destruct (alookup n (i_dict ins)) as [ov|] eqn:Ed; cbn [fst].
+      * apply calls_ok_mono; [exact Hok | intros m; apply aset_mono].
+      * destruct (counted t).
+        -- unfold calls_ok. cbn [i_calls i_dict].
+           apply (calls_ok_bump ins n); try assumption; [intros m0; apply aset_mono | apply aset_in].
+        -- apply calls_ok_mono; [exact Hok | intros m; apply aset_mono].
+  - (* Mutate *)
+    destruct (alookup n (i_dict ins)) as [v|] eqn:Ed; cbn [fst].
+    + apply calls_ok_mono; [exact Hok | intros m; apply aset_mono].
+    + destruct (resolve w ins n) as [t|]; [|exact Hok].
+      destruct (materialise_calls_ok w ins n t Hok Ed) as (H1 & H2 & H3).
+      destruct (materialise w ins n t) as [[ins' v] nx]. cbn [fst] in *.
+      unfold calls_ok in *. cbn [i_calls i_dict] in *. eapply Forall_impl; [|exact H1].
+      intros p [Hc Hin]. split; [exact Hc | apply aset_mono, Hin].
+  - (* Register *)
+    destruct (resolve w ins n) as [t|]; [|exact Hok]. cbn [fst].
+    apply calls_ok_mono; [exact Hok | auto].
+  - (* AddTrait *)
+    match goal with |- context [if ?c then (w_next w, w_next w + 1) else (0, w_next w)] => destruct c end;
+      cbn [fst]; (apply calls_ok_mono; [exact Hok | auto]).
+  - exact Hok.
+Qed.
+
+Definition world_calls_ok (w : world) : Prop := Forall calls_ok (w_insts w).
+
+Lemma Forall_update_nth {A} (P : A -> Prop) f l : forall n,
+  Forall P l -> (forall x, P x -> P (f x)) -> Forall P (update_nth n f l).
+Proof.
+  induction l as [|a l IH]; intros [|n] H Hf; cbn; try constructor; inversion H; subst; auto.
+Qed.
+
+Lemma Forall_nth {A} (P : A -> Prop) l d : forall n, Forall P l -> P d -> P (nth n l d).
+Proof. induction l as [|a l IH]; intros [|n] H Hd; cbn; inversion H; subst; auto. Qed.
+
+Lemma new_inst_calls_ok c : calls_ok (new_inst c).
+Proof. constructor. Qed.
+
+Lemma step_calls_ok w o : world_calls_ok w -> world_calls_ok (fst (step w o)).
+Proof.
+  unfold world_calls_ok. intros H.
+  assert (Hnth : forall k, calls_ok (nth k (w_insts w) (new_inst 0))).
+  { intros k. apply Forall_nth; [exact H | apply new_inst_calls_ok]. }
+  destruct o; cbn [step];
+    try (match goal with |- context [if ?c then _ else _] => destruct c end; [exact H|];
+         match goal with |- context [step_inst w ?i ?o] =>
+           pose proof (step_inst_calls_ok w i o (Hnth _)) as Hs; destruct (step_inst w i o) as [[? ?] ?] end;
+         cbn [fst w_insts] in *; apply Forall_update_nth; [exact H | intros; exact Hs]).
+  cbn [fst w_insts]. apply Forall_app. split; [exact H | constructor; [apply new_inst_calls_ok | constructor]].
+Qed.
+
+Lemma final_calls_ok ops : forall w, world_calls_ok w -> world_calls_ok (final w ops).
+Proof.
+  induction ops as [|o ops IH]; intros w H; [exact H|]. cbn [final fold_left].
+  change (fold_left (fun w o => fst (step w o)) ops ?x) with (final x ops). apply IH, step_calls_ok, H.
+Qed.
+
+(* from a world without instances: after any history every counter of every instance is 1 *)
+Lemma default_method_once cls next0 ops ins n c :
+  In ins (w_insts (final (mkW cls [] next0) ops)) -> In (n, c) (i_calls ins) ->
+  c = 1 /\ alookup n (i_dict ins) <> None.
+Proof.
+  intros Hin Hl. assert (H : world_calls_ok (final (mkW cls [] next0) ops)).
+  { apply final_calls_ok. constructor. }
+  unfold world_calls_ok in H. rewrite Forall_forall in H. specialize (H ins Hin). unfold calls_ok in H.
+  rewrite Forall_forall in H. exact (H (n, c) Hl).
+Qed.
+
+(* ------------------------------------------------------------------ *)
+(* allocation: every object in the world lies below the allocator, every
+   default is allocated at or above it — so a default never aliases anything *)
+
+Definition below (b : Z) (l : list Z) : Prop := Forall (fun x => x < b) l.
+Definition class_oids (w : world) : list Z := flat_map (fun c => map (fun p => t_doid (snd p)) c) (w_classes w).
+
+Lemma below_weaken b b' l : b <= b' -> below b l -> below b' l.
+Proof. intros H. unfold below. apply Forall_impl. intros; lia. Qed.
+Lemma below_app b l1 l2 : below b (l1 ++ l2) <-> below b l1 /\ below b l2.
+Proof. unfold below. apply Forall_app. Qed.
+
+Lemma default_value_oids t next :
+  0 < next ->
+  next <= snd (default_value t next) /\
+  Forall (fun x => next <= x < snd (default_value t next)) (value_oids (fst (default_value t next))).
+Proof.
+  intros Hp. unfold default_value, value_oids.
+  destruct (t_kind t); cbn [fst snd v_parts map filter];
+    repeat match goal with
+           | |- context [negb (?a =? 0)] =>
+               let E := fresh "E" in destruct (Z.eqb_spec a 0) as [E|E]; [try lia|]; cbn [negb]
+           end;
+    (split; [lia|]); repeat constructor; lia.
+Qed.
+
+Lemma value_oids_mutate v x : value_oids (mutate_value v x) = value_oids v.
+Proof.
+  unfold mutate_value, value_oids. destruct v as [sh ps]. cbn [v_shape v_parts].
+  destruct sh as [|p|p]; try reflexivity.
+  do 3 (try (destruct p as [p|p|]; try reflexivity));
+    destruct ps as [|[o c] [|[o2 c2] r2]]; reflexivity.
+Qed.
+
+Definition dict_oids (d : list (Z * value)) : list Z := flat_map (fun p => value_oids (snd p)) d.
+Definition itrait_oids (its : list (Z * tdef)) : list Z := map (fun p => t_doid (snd p)) its.
+
+Lemma inst_oids_split ins : inst_oids ins = dict_oids (i_dict ins) ++ itrait_oids (i_itraits ins).
+Proof. reflexivity. Qed.
+
+Lemma below_dict_aset b n v d : below b (dict_oids d) -> below b (value_oids v) -> below b (dict_oids (aset n v d)).
+Proof.
+  intros Hd Hv. induction d as [|[k x] d IH]; cbn [aset dict_oids flat_map snd] in *.
+  - rewrite app_nil_r. exact Hv.
+  - apply below_app in Hd. destruct Hd as [H1 H2]. destruct (n =? k); cbn [dict_oids flat_map snd]; apply below_app.
+    + split; assumption.
+    + split; [exact H1 | apply IH; exact H2].
+Qed.
+
+Lemma below_dict_lookup b n v d : below b (dict_oids d) -> alookup n d = Some v -> below b (value_oids v).
+Proof.
+  intros Hd Hl. induction d as [|[k x] d IH]; cbn in *; [discriminate|].
+  apply below_app in Hd. destruct Hd as [H1 H2]. destruct (n =? k); [injection Hl as <-; exact H1 | apply IH; assumption].
+Qed.
+
+Lemma below_itraits_aset b n t its : below b (itrait_oids its) -> t_doid t < b -> below b (itrait_oids (aset n t its)).
+Proof.
+  intros Hd Hv. induction its as [|[k x] its IH]; cbn [aset itrait_oids map snd] in *.
+  - constructor; [exact Hv | constructor].
+  - inversion Hd as [|? ? H1 H2]; subst. destruct (n =? k); cbn [itrait_oids map snd]; constructor; auto.
+    apply IH. exact H2.
+Qed.
+
+Lemma below_itraits_lookup b n t (its : list (Z * tdef)) : below b (itrait_oids its) -> alookup n its = Some t -> t_doid t < b.
+Proof.
+  intros Hd Hl. induction its as [|[k x] its IH]; cbn in *; [discriminate|].
+  inversion Hd as [|? ? H1 H2]; subst. destruct (n =? k); [injection Hl as <-; exact H1 | apply IH; assumption].
+Qed.
+
+Lemma below_itraits_snoc b n t its : below b (itrait_oids its) -> t_doid t < b -> below b (itrait_oids (its ++ [(n, t)])).
+Proof.
+  intros Hd Hv. unfold itrait_oids. rewrite map_app. apply below_app. split; [exact Hd | constructor; [exact Hv | constructor]].
+Qed.
+
+Lemma below_class_lookup w b c n t :
+  below b (class_oids w) -> alookup n (nth c (w_classes w) []) = Some t -> t_doid t < b.
+Proof.
+  unfold class_oids. intros Hb Hl. revert c Hl. induction (w_classes w) as [|cl cls IH]; intros [|c] Hl; cbn in *;
+    try discriminate.
+  - apply below_app in Hb. destruct Hb as [H1 _]. eapply (below_itraits_lookup b n t cl); eassumption.
+  - apply below_app in Hb. destruct Hb as [_ H2]. eapply IH; eassumption.
+Qed.
+
+Section Alloc.
+  Variable w : world.
+  Hypothesis Hpos : 0 < w_next w.
+  Hypothesis Hcls : below (w_next w) (class_oids w).
+
+  Lemma resolve_below ins n t :
+    below (w_next w) (itrait_oids (i_itraits ins)) -> resolve w ins n = Some t -> t_doid t < w_next w.
+  Proof.
+    intros Hi. unfold resolve, class_of. destruct (alookup n (i_itraits ins)) as [t0|] eqn:E.
+    - intros H. injection H as <-. eapply below_itraits_lookup; eassumption.
+    - intros H. eapply below_class_lookup; eassumption.
+  Qed.
+
+  Lemma ensure_itrait_below ins n t b :
+    below b (itrait_oids (i_itraits ins)) -> t_doid t < b -> below b (itrait_oids (ensure_itrait ins n t)).
+  Proof.
+    intros H Ht. unfold ensure_itrait. destruct (alookup n (i_itraits ins)); [exact H | apply below_itraits_snoc; assumption].
+  Qed.
+
+  Lemma materialise_below ins n t :
+    below (w_next w) (dict_oids (i_dict ins)) ->
+    let '(ins', v, nx) := materialise w ins n t in
+    w_next w <= nx /\ below nx (dict_oids (i_dict ins')) /\ i_itraits ins' = i_itraits ins
+    /\ Forall (fun x => w_next w <= x < nx) (value_oids v).
+  Proof.
+    intros Hd. unfold materialise. pose proof (default_value_oids t (w_next w) Hpos) as [H1 H2].
+    destruct (default_value t (w_next w)) as [v nx]. cbn [fst snd] in *. cbn [i_dict i_itraits].
+    split; [exact H1|]. split; [|split; [reflexivity | exact H2]].
+    unfold dict_oids. rewrite flat_map_app. apply below_app. split.
+    - eapply below_weaken; eassumption.
+    - cbn. rewrite app_nil_r. eapply Forall_impl; [|exact H2]. intros; cbn in *; lia.
+  Qed.
+
+  Lemma fire_below (its : list (Z * tdef)) ins b :
+    w_next w <= b -> below b (itrait_oids its) ->
+    below b (itrait_oids (match alookup trait_added its, alookup trait_added (class_of w ins) with
+                          | None, Some ta => its ++ [(trait_added, ta)]
+                          | _, _ => its
+                          end)).
+  Proof.
+    intros Hb H. destruct (alookup trait_added its); [exact H|].
+    destruct (alookup trait_added (class_of w ins)) as [ta|] eqn:E; [|exact H].
+    apply below_itraits_snoc; [exact H|]. unfold class_of in E.
+    pose proof (below_class_lookup w (w_next w) _ _ _ Hcls E). lia.
+  Qed.
+
+  (* every operation keeps the instance's objects below the (advanced) allocator *)
+  Lemma step_inst_below ins o :
+    below (w_next w) (inst_oids ins) ->
+    let '(ins', r, nx) := step_inst w ins o in
+    w_next w <= nx /\ below nx (inst_oids ins').
+  Proof.
+    intros Hb. rewrite inst_oids_split in Hb. apply below_app in Hb. destruct Hb as [Hd Hi].
+    assert (Hsame : w_next w <= w_next w /\ below (w_next w) (inst_oids ins)).
+    { split; [lia|]. rewrite inst_oids_split. apply below_app. split; assumption. }
+    destruct o as [i n|i n content scalar|i n x|i n hid via|i n t|c]; cbn [step_inst].
+    - (* Read *)
+      destruct (alookup n (i_dict ins)); [exact Hsame|]. destruct (resolve w ins n) as [t|]; [|exact Hsame].
+      pose proof (materialise_below ins n t Hd) as H. destruct (materialise w ins n t) as [[ins' v] nx].
+      destruct H as (H1 & H2 & H3 & _). split; [exact H1|]. rewrite inst_oids_split, H3. apply below_app.
+      split; [exact H2 | eapply below_weaken; eassumption].
+    - (* Assign *)
+      destruct (resolve w ins n) as [t|] eqn:Er; [|exact Hsame].
+      unfold assigned_value.
+      pose proof (default_value_oids (mkT (t_kind t) content scalar 0 0 false) (w_next w) Hpos) as [H1 H2].
+      destruct (default_value (mkT (t_kind t) content scalar 0 0 false) (w_next w)) as [v nx]. cbn [fst snd] in *.
+      assert (Hv : below nx (value_oids v)) by (eapply Forall_impl; [|exact H2]; intros; cbn in *; lia).
+      assert (Hd' : below nx (dict_oids (aset n v (i_dict ins)))).
+      { apply below_dict_aset; [eapply below_weaken; eassumption | exact Hv]. }
+      assert (Hi' : below nx (itrait_oids (i_itraits ins))) by (eapply below_weaken; eassumption).
+      destruct (hids ins t n) as [|h hs].
+      + split; [exact H1|]. rewrite inst_oids_split. apply below_app. split; assumption.
+      + destruct (alookup n (i_dict ins)) as [ov|];
+          (split; [exact H1|]; rewrite inst_oids_split; cbn [i_dict i_itraits]; apply below_app; split; [exact Hd'|];
+           match goal with |- context [if ?c then _ else _] => destruct c end; [|exact Hi'];
+           apply ensure_itrait_below; [exact Hi'|]; pose proof (resolve_below ins n t Hi Er); lia).
+    - (* Mutate *)
+      set (fix_ := fun (v : value) (its : list (Z * tdef)) =>
+                    if (v_shape v =? 5)
+                       && negb match alookup n (class_of w ins) with Some ct => has_items (t_kind ct) | None => false end
+                    then match alookup (items_name n) its with
+                         | Some _ => its
+                         | None =>
+                             match alookup trait_added (its ++ [(items_name n, mkT KEvent [] 0 0 0 false)]),
+                                   alookup trait_added (class_of w ins) with
+                             | None, Some ta => (its ++ [(items_name n, mkT KEvent [] 0 0 0 false)]) ++ [(trait_added, ta)]
+                             | _, _ => its ++ [(items_name n, mkT KEvent [] 0 0 0 false)]
+                             end
+                         end
+                    else its).
+      assert (Hfix : forall v its b, w_next w <= b -> below b (itrait_oids its) -> below b (itrait_oids (fix_ v its))).
+      { intros v its b Hle Hb. unfold fix_. destruct (_ && _); [|exact Hb].
+        destruct (alookup (items_name n) its); [exact Hb|].
+        apply (fire_below _ ins b Hle). apply below_itraits_snoc; [exact Hb | cbn; lia]. }
+      destruct (alookup n (i_dict ins)) as [v|] eqn:Ed.
+      + split; [lia|]. rewrite inst_oids_split. cbn [i_dict i_itraits]. apply below_app. split.
+        * apply below_dict_aset; [exact Hd|]. rewrite value_oids_mutate. eapply below_dict_lookup; eassumption.
+        * apply Hfix; [lia | exact Hi].
+      + destruct (resolve w ins n) as [t|]; [|exact Hsame].
+        pose proof (materialise_below ins n t Hd) as H. destruct (materialise w ins n t) as [[ins' v] nx].
+        destruct H as (H1 & H2 & H3 & H4). split; [exact H1|]. rewrite inst_oids_split. cbn [i_dict i_itraits].
+        apply below_app. split.
+        * apply below_dict_aset; [exact H2|]. rewrite value_oids_mutate.
+          eapply Forall_impl; [|exact H4]. intros; cbn in *; lia.
+        * rewrite H3. apply Hfix; [exact H1 | eapply below_weaken; eassumption].
+    - (* Register *)
+      destruct (resolve w ins n) as [t|] eqn:Er; [|exact Hsame]. split; [lia|].
+      rewrite inst_oids_split. cbn [i_dict i_itraits]. apply below_app. split; [exact Hd|].
+      pose proof (resolve_below ins n t Hi Er) as Ht.
+      assert (H1 : below (w_next w) (itrait_oids (aset n (mkT (t_kind t) (t_content t) (t_scalar t) (t_doid t) (t_nnotif t + 1) (t_static t))
+                                                       (ensure_itrait ins n t)))).
+      { apply below_itraits_aset; [apply ensure_itrait_below; assumption | exact Ht]. }
+      destruct via; [|exact H1].
+      match goal with |- context [alookup trait_added ?l] => set (its := l) in * end.
+      destruct (alookup trait_added its) as [ta|] eqn:Ea.
+      + apply below_itraits_aset; [exact H1|]. cbn. eapply below_itraits_lookup; eassumption.
+      + destruct (alookup trait_added (class_of w ins)) as [ta|] eqn:Ec; [|exact H1].
+        apply below_itraits_snoc; [exact H1|]. cbn. unfold class_of in Ec. eapply below_class_lookup; eassumption.
+    - (* AddTrait *)
+      set (container := match t_kind t with KConst => false | _ => true end).
+      set (fire := fun its : list (Z * tdef) =>
+                     match alookup trait_added its, alookup trait_added (class_of w ins) with
+                     | None, Some ta => its ++ [(trait_added, ta)]
+                     | _, _ => its
+                     end).
+      assert (Hfire : forall its b, w_next w <= b -> below b (itrait_oids its) -> below b (itrait_oids (fire its))).
+      { intros its b Hle Hb. apply (fire_below its ins b Hle Hb). }
+      match goal with |- context [aset n _ ?x] => set (its0 := x) end.
+      assert (H0 : below (w_next w) (itrait_oids its0)).
+      { subst its0. destruct container; [|exact Hi].
+        match goal with |- context [if ?c then _ else _] => destruct c end;
+          [|apply Hfire; [lia|]]; (apply below_itraits_aset; [exact Hi | cbn; lia]). }
+      destruct container.
+      + split; [lia|]. rewrite inst_oids_split. cbn [i_dict i_itraits]. apply below_app.
+        split; [eapply below_weaken; [|exact Hd]; lia|].
+        assert (H1 : below (w_next w + 1) (itrait_oids its0)) by (eapply below_weaken; [|exact H0]; lia).
+        match goal with |- context [match ?o with Some _ => _ | None => _ end] => destruct o end;
+          [|apply Hfire; [lia|]]; (apply below_itraits_aset; [exact H1 | cbn; lia]).
+      + split; [lia|]. rewrite inst_oids_split. cbn [i_dict i_itraits]. apply below_app. split; [exact Hd|].
+        match goal with |- context [match ?o with Some _ => _ | None => _ end] => destruct o end;
+          [|apply Hfire; [lia|]]; (apply below_itraits_aset; [exact H0 | cbn; lia]).
+    - exact Hsame.
+  Qed.
+End Alloc.
+
+(* ------------------------------------------------------------------ *)
+(* well-formed worlds                                                   *)
+
+Definition wf (w : world) : Prop :=
+  0 < w_next w /\ below (w_next w) (class_oids w)
+  /\ Forall (fun ins => below (w_next w) (inst_oids ins)) (w_insts w)
+  /\ world_calls_ok w.
+
+Lemma below_flat_map {A} b (f : A -> list Z) l : below b (flat_map f l) <-> Forall (fun a => below b (f a)) l.
+Proof.
+  induction l as [|a l IH]; cbn; [split; constructor|]. rewrite below_app, IH. split.
+  - intros [H1 H2]. constructor; assumption.
+  - intros H. inversion H; subst. split; assumption.
+Qed.
+
+Lemma world_oids_below w b :
+  below b (world_oids w) <-> below b (class_oids w) /\ Forall (fun ins => below b (inst_oids ins)) (w_insts w).
+Proof. unfold world_oids. rewrite below_app. fold (class_oids w). rewrite (below_flat_map b inst_oids). reflexivity. Qed.
+
+Lemma wf_init cls next0 : 0 < next0 -> below next0 (flat_map (fun c => map (fun p => t_doid (snd p)) c) cls) ->
+  wf (mkW cls [] next0).
+Proof. intros H1 H2. repeat split; try assumption; constructor. Qed.
+
+Lemma step_wf w o : wf w -> wf (fst (step w o)).
+Proof.
+  intros (Hp & Hc & Hi & Hk). pose proof (step_calls_ok w o Hk) as Hk'.
+  destruct (step_shape w o) as [[c ->]|[[E _]|(ins' & r & nx & Hv & _ & Hs & E)]].
+  - cbn [step fst] in *. repeat split; try assumption. cbn [w_insts w_next].
+    apply Forall_app. split; [exact Hi | constructor; [constructor | constructor]].
+  - rewrite E in *. repeat split; assumption.
+  - rewrite E in *. cbn [fst w_next w_insts w_classes] in *.
+    assert (Hb : below (w_next w) (inst_oids (inst_at w (target w o)))).
+    { unfold inst_at. apply (Forall_nth (fun ins => below (w_next w) (inst_oids ins))); [exact Hi | constructor]. }
+    pose proof (step_inst_below w Hp Hc (inst_at w (target w o)) o Hb) as H. rewrite Hs in H. destruct H as [Hle Hb'].
+    unfold wf, class_oids in *. cbn [w_next w_insts w_classes].
+    split; [lia|]. split; [eapply below_weaken; eassumption|]. split; [|exact Hk'].
+    apply Forall_update_nth.
+    + eapply Forall_impl; [|exact Hi]. intros a Ha. eapply below_weaken; eassumption.
+    + intros _ _. exact Hb'.
+Qed.
+
+Lemma final_wf ops : forall w, wf w -> wf (final w ops).
+Proof.
+  induction ops as [|o ops IH]; intros w H; [exact H|]. cbn [final fold_left].
+  change (fold_left (fun w o => fst (step w o)) ops ?x) with (final x ops). apply IH, step_wf, H.
+Qed.
+
+(* A default read in a well-formed world returns objects that nothing else in
+   the world refers to: not another instance, not this instance, not a class-level default. *)
+Lemma default_not_aliased w i n t :
+  wf w -> valid_index w i -> alookup n (i_dict (inst_at w i)) = None -> resolve w (inst_at w i) n = Some t ->
+  forall x, In x (value_oids (snd (step w (Read i n)))) -> ~ In x (world_oids w).
+Proof.
+  intros (Hp & Hc & Hi & _) Hv Hd Hr x Hx Hin. rewrite (first_read w i n t Hv Hd Hr) in Hx. cbn [snd] in Hx.
+  destruct (default_value_oids t (w_next w) Hp) as [_ Hf]. rewrite Forall_forall in Hf. specialize (Hf x Hx).
+  assert (Hb : below (w_next w) (world_oids w)) by (apply world_oids_below; split; assumption).
+  unfold below in Hb. rewrite Forall_forall in Hb. specialize (Hb x Hin). lia.
+Qed.
+
+(* ------------------------------------------------------------------ *)
+(* the law holds on what the model shows                                *)
+
+Definition valid_op (w : world) (o : op) : Prop :=
+  match op_index o with Some i => valid_index w i | None => True end.
+
+Lemma others_ok_app i : forall insts j rest,
+  others_ok i j insts (map (fun x => digest (enc_inst x)) insts ++ rest) = true.
+Proof.
+  induction insts as [|a l IH]; intros j rest; [reflexivity|]. cbn [map app others_ok].
+  rewrite Z.eqb_refl, orb_true_r. cbn [andb]. apply IH.
+Qed.
+
+Lemma others_ok_update i f : forall insts j k,
+  i = j + Z.of_nat k ->
+  others_ok i j insts (map (fun x => digest (enc_inst x)) (update_nth k f insts)) = true.
+Proof.
+  induction insts as [|a l IH]; intros j k Hi; [reflexivity|]. destruct k as [|k]; cbn [update_nth map others_ok].
+  - replace (j =? i) with true by (symmetry; apply Z.eqb_eq; lia). cbn [orb andb].
+    pose proof (others_ok_app i l (j + 1) []) as H. rewrite app_nil_r in H. exact H.
+  - rewrite Z.eqb_refl, orb_true_r. cbn [andb]. apply IH. lia.
+Qed.
+
+Lemma inst_eqb_refl a : inst_eqb a a = true. Proof. apply zlist_eqb_refl. Qed.
+Lemma value_eqb_refl a : value_eqb a a = true. Proof. apply zlist_eqb_refl. Qed.
+
+Lemma calls_ok_leb ins : calls_ok ins -> forallb (fun p => snd p <=? 1) (i_calls ins) = true.
+Proof.
+  unfold calls_ok. intros H. apply forallb_forall. intros p Hp. rewrite Forall_forall in H.
+  destruct (H p Hp) as [-> _]. reflexivity.
+Qed.
+
+Lemma default_value_like t next : 0 < next -> t_kind t <> KEvent ->
+  value_like (fst (default_value t next)) (fst (default_value t 1)) = true
+  /\ v_shape (fst (default_value t next)) <> 9.
+Proof.
+  intros Hp Hk.
+  assert (E0 : (next =? 0) = false) by (apply Z.eqb_neq; lia).
+  assert (E1 : (next + 1 =? 0) = false) by (apply Z.eqb_neq; lia).
+  unfold default_value, value_like. destruct (t_kind t); try congruence;
+    cbn [fst v_shape v_parts parts_like]; rewrite ?E0, ?E1, ?zlist_eqb_refl; cbn; (split; [reflexivity | discriminate]).
+Qed.
+
+Lemma default_value_nodup t next : 0 < next -> znodup (value_oids (fst (default_value t next))) = true.
+Proof.
+  intros Hp.
+  assert (E0 : (next =? 0) = false) by (apply Z.eqb_neq; lia).
+  assert (E1 : (next + 1 =? 0) = false) by (apply Z.eqb_neq; lia).
+  assert (E2 : (next =? next + 1) = false) by (apply Z.eqb_neq; lia).
+  unfold default_value, value_oids. destruct (t_kind t); cbn [fst v_parts map filter fst];
+    rewrite ?E0, ?E1; cbn [negb filter znodup zmem existsb andb orb]; rewrite ?E2; reflexivity.
+Qed.
+
+(* the clauses that do not depend on the kind of operation *)
+Lemma common_clauses w o ins' r nx :
+  wf w -> valid_index w (target w o) -> (forall c, o <> NewInst c) ->
+  calls_ok ins' ->
+  let i := target w o in
+  let ob := mkO r ins' (map (fun x => digest (enc_inst x)) (update_nth (Z.to_nat i) (fun _ => ins') (w_insts w)))
+                (digest (enc_classes (w_classes w))) nx (match v_shape r with 9 => true | _ => false end) in
+  chk 3 (forallb (fun p => snd p <=? 1) (i_calls (o_target ob)))
+  ++ chk 6 (others_ok i 0 (w_insts w) (o_digests ob)
+            && (zlen (o_digests ob) =? zlen (w_insts w) + (match o with NewInst _ => 1 | _ => 0 end)))
+  ++ chk 7 (o_classes ob =? digest (enc_classes (w_classes w)))
+  ++ chk 8 (match o with NewInst c => inst_eqb (o_target ob) (new_inst c) | _ => true end)
+  ++ chk 10 (opt_eqb Z.eqb (nth_error (o_digests ob) (Z.to_nat i)) (Some (digest (enc_inst (o_target ob))))) = [].
+Proof.
+  intros Hwf Hv Hno Hc. cbn zeta. cbn [o_target o_digests o_classes].
+  rewrite (calls_ok_leb _ Hc). rewrite others_ok_update by (destruct Hv; rewrite Z2Nat.id; lia).
+  unfold zlen. rewrite map_length, update_nth_length.
+  assert (E8 : match o with NewInst c => inst_eqb ins' (new_inst c) | _ => true end = true).
+  { destruct o; try reflexivity. exfalso. eapply Hno. reflexivity. }
+  rewrite E8.
+  assert (E6 : (Z.of_nat (length (w_insts w)) =? Z.of_nat (length (w_insts w)) + match o with NewInst _ => 1 | _ => 0 end) = true).
+  { destruct o; try (apply Z.eqb_eq; lia). exfalso. eapply Hno. reflexivity. }
+  rewrite E6, Z.eqb_refl. cbn [andb chk app].
+  assert (Hlt : (Z.to_nat (target w o) < length (w_insts w))%nat) by (destruct Hv; lia).
+  rewrite nth_error_map.
+  rewrite (nth_error_nth' _ (new_inst 0)) by (rewrite update_nth_length; exact Hlt).
+  rewrite nth_update_nth_same by exact Hlt. cbn [option_map opt_eqb]. rewrite Z.eqb_refl. reflexivity.
+Qed.
+
+Lemma exc_flag_false s : s <> 9 -> match s with 9 => true | _ => false end = false.
+Proof.
+  intros H. destruct s as [|p|p]; try reflexivity.
+  do 4 (try (destruct p as [p|p|]; try reflexivity)). contradiction.
+Qed.
+
+Lemma observe_normal w o ins' r nx :
+  step w o = (mkW (w_classes w) (update_nth (Z.to_nat (target w o)) (fun _ => ins') (w_insts w)) nx, r) ->
+  valid_index w (target w o) ->
+  observe w o
+  = mkO r ins' (map (fun x => digest (enc_inst x)) (update_nth (Z.to_nat (target w o)) (fun _ => ins') (w_insts w)))
+        (digest (enc_classes (w_classes w))) nx (match v_shape r with 9 => true | _ => false end).
+Proof.
+  intros E Hv. unfold observe. rewrite E. cbn [w_insts w_classes w_next]. f_equal.
+  apply nth_update_nth_same. destruct Hv. lia.
+Qed.
+
+Lemma in_range w i : valid_index w i -> (0 <=? i) && (i <? zlen (w_insts w)) = true.
+Proof. intros [H1 H2]. unfold zlen. apply andb_true_iff. split; [apply Z.leb_le | apply Z.ltb_lt]; lia. Qed.
+
+(* the clauses about reads *)
+Lemma read_clauses w i n ins' r nx :
+  wf w -> valid_index w i -> step_inst w (inst_at w i) (Read i n) = (ins', r, nx) ->
+  let ob := mkO r ins' (map (fun x => digest (enc_inst x)) (update_nth (Z.to_nat i) (fun _ => ins') (w_insts w)))
+                (digest (enc_classes (w_classes w))) nx (match v_shape r with 9 => true | _ => false end) in
+  match is_default_read w (Read i n) with
+  | Some (ins, n, t) =>
+      chk 11 (negb (o_exc ob))
+      ++ chk 1 (value_like (o_ret ob) (fst (default_value t 1)))
+      ++ chk 5 (znodup (value_oids (o_ret ob))
+                && forallb (fun x => negb (zmem x (world_oids w))) (value_oids (o_ret ob)))
+      ++ chk 9 (opt_eqb value_eqb (alookup n (i_dict (o_target ob))) (Some (o_ret ob))
+                && (zlen (i_dict (o_target ob)) =? zlen (i_dict ins) + 1)
+                && zlist_eqb (flat_map (fun p => fst p :: enc_tdef (snd p)) (i_itraits (o_target ob)))
+                             (flat_map (fun p => fst p :: enc_tdef (snd p)) (i_itraits ins)))
+  | None => []
+  end
+  ++ match is_stored_read w (Read i n) with
+     | Some (ins, v) => chk 4 (value_eqb (o_ret ob) v && inst_eqb (o_target ob) ins)
+     | None => []
+     end
+  ++ chk 2 (negb (is_read (Read i n)) || (zlen (i_log (o_target ob)) =? zlen (i_log (inst_at w i)))) = [].
+Proof.
+  intros Hwf Hv Hs. cbn zeta. cbn [o_ret o_target o_exc is_read negb orb].
+  unfold is_default_read, is_stored_read. rewrite (in_range w i Hv). fold (inst_at w i).
+  cbn [step_inst] in Hs. destruct (alookup n (i_dict (inst_at w i))) as [v|] eqn:Ed.
+  - injection Hs as <- <- <-. rewrite value_eqb_refl, inst_eqb_refl, Z.eqb_refl. reflexivity.
+  - destruct (resolve w (inst_at w i) n) as [t|] eqn:Er.
+    + unfold materialise in Hs. destruct (default_value t (w_next w)) as [v nx0] eqn:Edv.
+      injection Hs as <- <- <-. cbn [i_log i_dict i_itraits notify]. rewrite ?app_nil_r, Z.eqb_refl.
+      destruct Hwf as (Hp & Hc & Hi & _).
+      destruct (t_kind t) eqn:Ek;
+        try (assert (Hne : t_kind t <> KEvent) by congruence;
+             destruct (default_value_like t (w_next w) Hp Hne) as [Hl Hsh]; rewrite Edv in Hl, Hsh; cbn [fst] in Hl, Hsh;
+             rewrite (exc_flag_false _ Hsh), Hl;
+             pose proof (default_value_nodup t (w_next w) Hp) as Hnd; rewrite Edv in Hnd; cbn [fst] in Hnd; rewrite Hnd;
+             assert (Hfresh : forallb (fun x => negb (zmem x (world_oids w))) (value_oids v) = true);
+             [ apply forallb_forall; intros x Hx; apply negb_true_iff;
+               destruct (zmem x (world_oids w)) eqn:Ez; [|reflexivity]; exfalso;
+               unfold zmem in Ez; apply existsb_exists in Ez; destruct Ez as [y [Hy Exy]]; apply Z.eqb_eq in Exy; subst y;
+               destruct (default_value_oids t (w_next w) Hp) as [_ Hf]; rewrite Edv in Hf; cbn [fst snd] in Hf;
+               rewrite Forall_forall in Hf; specialize (Hf x Hx);
+               assert (Hb : below (w_next w) (world_oids w)) by (apply world_oids_below; split; assumption);
+               unfold below in Hb; rewrite Forall_forall in Hb; specialize (Hb x Hy); lia
+             | rewrite Hfresh; rewrite alookup_app, Ed; cbn [alookup]; rewrite Z.eqb_refl; cbn [opt_eqb];
+               rewrite value_eqb_refl, zlist_eqb_refl; unfold zlen; rewrite app_length; cbn [length];
+               replace (Z.of_nat (length (i_dict (inst_at w i)) + 1) =? Z.of_nat (length (i_dict (inst_at w i))) + 1)
+                 with true by (symmetry; apply Z.eqb_eq; lia);
+               reflexivity ]).
+      reflexivity.
+    + injection Hs as <- <- <-. rewrite Z.eqb_refl. reflexivity.
+Qed.
+
+Lemma app3_nil {A} (a b c rest : list A) : a ++ b ++ c = [] -> rest = [] -> a ++ b ++ c ++ rest = [].
+Proof.
+  intros H ->. rewrite app_nil_r. exact H.
+Qed.
+
+(* Main theorem: every clause of the law holds on what the model shows, for
+   every operation in every well-formed world. *)
+Theorem law_on_model w o : wf w -> valid_op w o -> law_step w o (observe w o) = [].
+Proof.
+  intros Hwf Hvo. destruct (step_shape w o) as [[c ->]|[[Eerr Hbad]|(ins' & r & nx & Hv & Hi & Hs & E)]].
+  - (* NewInst *)
+    unfold observe, law_step. cbn [step target w_insts w_classes w_next is_default_read is_stored_read is_read negb orb app
+                                   o_ret o_target o_digests o_classes o_exc].
+    rewrite Nat2Z.id. rewrite app_nth2 by lia. rewrite Nat.sub_diag. cbn [nth new_inst i_calls forallb i_log].
+    rewrite map_app, others_ok_app. unfold zlen. rewrite app_length, !map_length. cbn [length map].
+    rewrite Z.eqb_refl, inst_eqb_refl.
+    replace (Z.of_nat (length (w_insts w) + 1) =? Z.of_nat (length (w_insts w)) + 1) with true
+      by (symmetry; apply Z.eqb_eq; lia).
+    rewrite nth_error_app2 by (rewrite map_length; lia). rewrite map_length, Nat.sub_diag. cbn. rewrite Z.eqb_refl. reflexivity.
+  - exfalso. unfold valid_op in Hvo. destruct o; cbn [op_index target] in *; try (apply Hbad; exact Hvo).
+    cbn [step] in Eerr. unfold error_value in Eerr. congruence.
+  - rewrite (observe_normal w o ins' r nx E Hv).
+    assert (Hno : forall c, o <> NewInst c) by (intros c ->; discriminate).
+    assert (Hc : calls_ok ins').
+    { destruct Hwf as (_ & _ & _ & Hk).
+      pose proof (step_inst_calls_ok w (inst_at w (target w o)) o) as H. rewrite Hs in H. apply H.
+      unfold inst_at. apply Forall_nth; [exact Hk | apply new_inst_calls_ok]. }
+    pose proof (common_clauses w o ins' r nx Hwf Hv Hno Hc) as Hcommon. cbn zeta in Hcommon.
+    unfold law_step. fold (inst_at w (target w o)).
+    destruct o as [i n|i n content scalar|i n x|i n hid via|i n t|c]; try (exfalso; eapply Hno; reflexivity);
+      try (cbn [is_default_read is_stored_read is_read negb orb chk app]; exact Hcommon).
+    (* Read *)
+    pose proof (read_clauses w i n ins' r nx Hwf Hv Hs) as Hr. cbn zeta in Hr. cbn [target] in *.
+    exact (app3_nil _ _ _ _ Hr Hcommon).
+Qed.
+
+(* ------------------------------------------------------------------ *)
+(* histories                                                            *)
+
+Fixpoint obs_run (w : world) (ops : list op) : list (op * obs) :=
+  match ops with
+  | [] => []
+  | o :: r => (o, observe w o) :: obs_run (fst (step w o)) r
+  end.
+
+Fixpoint valid_hist (w : world) (ops : list op) : Prop :=
+  match ops with
+  | [] => True
+  | o :: r => valid_op w o /\ valid_hist (fst (step w o)) r
+  end.
+
+Lemma track_observe w o : valid_op w o -> track w o (observe w o) = fst (step w o).
+Proof.
+  intros Hvo. destruct (step_shape w o) as [[c ->]|[[Eerr Hbad]|(ins' & r & nx & Hv & Hi & Hs & E)]].
+  - unfold track, observe. cbn [step fst o_target o_next w_insts w_next w_classes target].
+    rewrite Nat2Z.id, app_nth2 by lia. rewrite Nat.sub_diag. reflexivity.
+  - exfalso. unfold valid_op in Hvo. destruct o; cbn [op_index target] in *; try (apply Hbad; exact Hvo).
+    cbn [step] in Eerr. unfold error_value in Eerr. congruence.
+  - rewrite (observe_normal w o ins' r nx E Hv), E. unfold track. cbn [o_target o_next fst].
+    destruct o; try reflexivity. discriminate Hi.
+Qed.
+
+Theorem law_on_histories : forall ops w k, wf w -> valid_hist w ops -> law_hist k w (obs_run w ops) = [].
+Proof.
+  induction ops as [|o ops IH]; intros w k Hwf Hvh; [reflexivity|]. cbn [obs_run law_hist].
+  destruct Hvh as [Hvo Hvh]. rewrite (law_on_model w o Hwf Hvo). cbn [map app].
+  rewrite (track_observe w o Hvo). apply IH; [apply step_wf, Hwf | exact Hvh].
+Qed.
+
+(* boolean form of history validity (for concrete examples) *)
+Definition valid_opb (w : world) (o : op) : bool :=
+  match op_index o with
+  | Some i => (0 <=? i) && (i <? Z.of_nat (length (w_insts w)))
+  | None => true
+  end.
+Fixpoint valid_histb (w : world) (ops : list op) : bool :=
+  match ops with
+  | [] => true
+  | o :: r => valid_opb w o && valid_histb (fst (step w o)) r
+  end.
+Lemma valid_histb_ok ops : forall w, valid_histb w ops = true -> valid_hist w ops.
+Proof.
+  induction ops as [|o ops IH]; intros w H; [exact I|]. cbn [valid_histb valid_hist] in *.
+  apply andb_true_iff in H. destruct H as [H1 H2]. split; [|apply IH, H2].
+  unfold valid_opb, valid_op in *. destruct (op_index o) as [i|]; [|exact I].
+  apply andb_true_iff in H1. destruct H1 as [Ha Hb]. apply Z.leb_le in Ha. apply Z.ltb_lt in Hb.
+  unfold valid_index. lia.
 Qed.
